@@ -16,6 +16,7 @@ import (
 	"context"
 	"encoding/json"
 	"fmt"
+	"sync"
 	"testing"
 
 	eth2api "github.com/attestantio/go-eth2-client/api"
@@ -76,6 +77,7 @@ func TestExec(t *testing.T) {
 		t.Fatalf("SLOTS_PER_EPOCH missing")
 	}
 	e := &env{ctx: ctx, bmock: bmock, spec: resp.Data, slotsPerEpoch: spe}
+	var jobs []job
 	for i, s := range scheds {
 		// a call with several validators ranges over a Go map: run it twice (one trace each, same sid) with the map
 		// filled in ascending / descending validator order (small maps are iterated in insertion order from a random offset)
@@ -85,11 +87,50 @@ func TestExec(t *testing.T) {
 				reps = 2
 			}
 		}
-		for r := range reps {
-			runOne(t, e, tr, i, s, r)
+		jobs = append(jobs, job{i, reps})
+	}
+	// calls are independent: run them on a few workers, write the traces in schedule order
+	out := make([][]*buf, len(scheds))
+	var wg sync.WaitGroup
+	next := make(chan job)
+	for range 8 {
+		wg.Add(1)
+		go func() {
+			defer wg.Done()
+			for j := range next {
+				for r := range j.reps {
+					b := &buf{}
+					runOne(t, e, b, j.i, scheds[j.i], r)
+					out[j.i] = append(out[j.i], b)
+				}
+			}
+		}()
+	}
+	for _, j := range jobs {
+		next <- j
+	}
+	close(next)
+	wg.Wait()
+	for _, bs := range out {
+		for _, b := range bs {
+			for _, ev := range b.evs {
+				tr.Emit(ev)
+			}
 		}
 	}
 }
+
+type job struct{ i, reps int }
+
+// sink receives the events of one call.
+type sink interface{ Emit(drv.Step) }
+
+type buf struct{ evs []drv.Step }
+
+func (b *buf) Emit(ev drv.Step) { b.evs = append(b.evs, ev) }
+
+// fatalf aborts the executor (worker goroutines must not call t.Fatalf): an infrastructure failure, never a verdict.
+func fatalf(format string, args ...any) { panic(fmt.Sprintf(format, args...)) }
 
 // signingRoot computes the root a validator client signs: the object root wrapped with the domain of the given NAME at
 // the given epoch (genesis fork version when the epoch source is "none").
@@ -140,7 +181,7 @@ func (e *env) build(t *testing.T, typ, ver, esrc string, own, decoy uint64, vari
 	switch typ {
 	case "attester":
 		if esrc != "target" {
-			t.Fatalf("attester: unknown epoch source %s", esrc)
+			fatalf("attester: unknown epoch source %s", esrc)
 		}
 		data := testutil.RandomAttestationDataPhase0()
 		data.Slot = decoySlot
@@ -158,12 +199,12 @@ func (e *env) build(t *testing.T, typ, ver, esrc string, own, decoy uint64, vari
 			va.Version = eth2spec.DataVersionFulu
 			va.Fulu = &electra.Attestation{AggregationBits: testutil.RandomBitList(64), Data: data, CommitteeBits: testutil.RandomBitVec64()}
 		default:
-			t.Fatalf("attester version %s", ver)
+			fatalf("attester version %s", ver)
 		}
 		sd, err = core.NewVersionedAttestation(va)
 	case "proposer", "blinded":
 		if esrc != "slot" {
-			t.Fatalf("proposal: unknown epoch source %s", esrc)
+			fatalf("proposal: unknown epoch source %s", esrc)
 		}
 		var p core.VersionedSignedProposal
 		blinded := typ == "blinded"
@@ -209,7 +250,7 @@ func (e *env) build(t *testing.T, typ, ver, esrc string, own, decoy uint64, vari
 				p.Fulu.SignedBlock.Message.Slot = ownSlot
 			}
 		default:
-			t.Fatalf("proposal version %s", ver)
+			fatalf("proposal version %s", ver)
 		}
 		sd = p
 	case "exit":
@@ -249,7 +290,7 @@ func (e *env) build(t *testing.T, typ, ver, esrc string, own, decoy uint64, vari
 				va.Version, va.Fulu = eth2spec.DataVersionFulu, m
 			}
 		default:
-			t.Fatalf("aggregator version %s", ver)
+			fatalf("aggregator version %s", ver)
 		}
 		sd = core.NewVersionedSignedAggregateAndProof(va)
 	case "syncmsg":
@@ -264,19 +305,19 @@ func (e *env) build(t *testing.T, typ, ver, esrc string, own, decoy uint64, vari
 		c.Signature = zero
 		sd = core.NewSignedSyncContributionAndProof(c)
 	default:
-		t.Fatalf("unknown object type %s", typ)
+		fatalf("unknown object type %s", typ)
 	}
 	if err != nil {
-		t.Fatalf("build %s/%s: %v", typ, ver, err)
+		fatalf("build %s/%s: %v", typ, ver, err)
 	}
 	if esrc == "slot" || esrc == "exit_epoch" || esrc == "randao_epoch" || esrc == "target" || esrc == "none" {
 		// the field each source names was filled above
 	} else {
-		t.Fatalf("unknown epoch source %s", esrc)
+		fatalf("unknown epoch source %s", esrc)
 	}
 	root, err := sd.MessageRoot()
 	if err != nil {
-		t.Fatalf("message root %s/%s: %v", typ, ver, err)
+		fatalf("message root %s/%s: %v", typ, ver, err)
 	}
 	return obj{data: sd, epoch: epoch, root: root}
 }
@@ -323,9 +364,9 @@ type subCall struct {
 	set  core.SignedDataSet
 }
 
-func runOne(t *testing.T, e *env, tr *drv.Tracer, sid int, sched []drv.Step, rep int) {
+func runOne(t *testing.T, e *env, tr sink, sid int, sched []drv.Step, rep int) {
 	if len(sched) != 1 || drv.Str(sched[0]["ev"]) != "Call" {
-		t.Fatalf("schedule %d: expected one Call step", sid)
+		fatalf("schedule %d: expected one Call step", sid)
 	}
 	c := sched[0]
 	typ, ver, bucket := drv.Str(c["typ"]), drv.Str(c["ver"]), drv.Str(c["bucket"])
@@ -344,15 +385,15 @@ func runOne(t *testing.T, e *env, tr *drv.Tracer, sid int, sched []drv.Step, rep
 	for _, lv := range vals {
 		secret, err := tbls.GenerateSecretKey()
 		if err != nil {
-			t.Fatalf("secret: %v", err)
+			fatalf("secret: %v", err)
 		}
 		shares, err := tbls.ThresholdSplit(secret, uint(N), uint(T))
 		if err != nil {
-			t.Fatalf("split: %v", err)
+			fatalf("split: %v", err)
 		}
 		pub, err := tbls.SecretToPublicKey(secret)
 		if err != nil {
-			t.Fatalf("pubkey: %v", err)
+			fatalf("pubkey: %v", err)
 		}
 		v := &validator{pub: pub, corePub: core.PubKeyFrom48Bytes(pub), shares: shares, objs: map[string]obj{
 			"A": e.build(t, typ, ver, esrc, own, other, false),
@@ -367,7 +408,7 @@ func runOne(t *testing.T, e *env, tr *drv.Tracer, sid int, sched []drv.Step, rep
 			key, ok := shares[by]
 			if !ok { // a key outside the cluster
 				if key, err = tbls.GenerateSecretKey(); err != nil {
-					t.Fatalf("outside key: %v", err)
+					fatalf("outside key: %v", err)
 				}
 			}
 			epoch := v.objs[over].epoch
@@ -376,11 +417,11 @@ func runOne(t *testing.T, e *env, tr *drv.Tracer, sid int, sched []drv.Step, rep
 			}
 			sroot, err := e.signingRoot(drv.Str(p["dom"]), esrc, epoch, v.objs[over].root)
 			if err != nil {
-				t.Fatalf("signing root: %v", err)
+				fatalf("signing root: %v", err)
 			}
 			sig, err := tbls.Sign(key, sroot[:])
 			if err != nil {
-				t.Fatalf("sign: %v", err)
+				fatalf("sign: %v", err)
 			}
 			raw := append([]byte{}, sig[:]...)
 			switch drv.Str(p["form"]) {
@@ -391,12 +432,12 @@ func runOne(t *testing.T, e *env, tr *drv.Tracer, sid int, sched []drv.Step, rep
 			}
 			carrier, err := v.objs[content].data.Clone()
 			if err != nil {
-				t.Fatalf("clone: %v", err)
+				fatalf("clone: %v", err)
 			}
 			if b, _ := p["vi"].(bool); b { // the validator client's own copy carries the validator index
 				att, ok := carrier.(core.VersionedAttestation)
 				if !ok {
-					t.Fatalf("vi on a non-attestation")
+					fatalf("vi on a non-attestation")
 				}
 				vi := eth2p0.ValidatorIndex(7)
 				att.ValidatorIndex = &vi
@@ -404,7 +445,7 @@ func runOne(t *testing.T, e *env, tr *drv.Tracer, sid int, sched []drv.Step, rep
 			}
 			signed, err := carrier.SetSignature(tblsconv.SigToCore(tbls.Signature(raw)))
 			if err != nil {
-				t.Fatalf("set signature: %v", err)
+				fatalf("set signature: %v", err)
 			}
 			v.partBody = append(v.partBody, struct {
 				content string
@@ -427,7 +468,7 @@ func runOne(t *testing.T, e *env, tr *drv.Tracer, sid int, sched []drv.Step, rep
 
 	agg, err := sigagg.New(T, sigagg.NewVerifier(e.bmock))
 	if err != nil {
-		t.Fatalf("sigagg.New: %v", err)
+		fatalf("sigagg.New: %v", err)
 	}
 	var calls []subCall
 	for k := 1; k <= 2; k++ {
